@@ -22,6 +22,7 @@ type ReadChannel interface {
 
 func initReadChannel() {
 	ReadChannelClass = NewClassWithOptions(ClassWithConstructor(UndefinedConstructor))
+	ReadChannelClass.IncludeMixin(IterableFiniteBaseMixin)
 	StdModule.AddConstantString("ReadChannel", Ref(ReadChannelClass))
 	RegisterNativeClass("Std::ReadChannel", "value.ReadChannelClass")
 }
